@@ -119,6 +119,33 @@ int main(int argc, char **argv)
 					if (r.getlen != got || r.crc != ref_crc16(0, data, want))
 						vf_viol("decoder-crc-length", "method=%s n=%d declared=%ld length/crc accessor mismatch", methods[m], n, decl[k]);
 					vf_outcome(vf_hash(out, got, m));
+					/* the same data delivered by the input callback in pieces (constant 1..3 bytes, irregular, 700 and 1023 bytes:
+					 * a piece shorter than the decoder's own block is not the end of the data) */
+					if (k == 2 && n > 0) {
+						static const int chunks[6] = { 1, 3, -1, -3, 700, 1023 };
+						int ci = (n + m) % 6;
+						got = dec_run(methods[m], data, n, decl[k], out, 0, chunks[ci], &r);
+						if (got != want || memcmp(out, data, want))
+							vf_viol("decoder-input-chunking", "method=%s n=%d: output differs when the input callback delivers its bytes in pieces (mode %d): %zu of %zu bytes", methods[m], n, chunks[ci], got, want);
+					}
+					/* two decoders of the stored methods alive at once, read alternately */
+					if (k == 2 && n > 1 && (n % 3) == 0) {
+						LHADecoderType *t1 = lha_decoder_for_name((char *) methods[m]), *t2 = lha_decoder_for_name((char *) methods[(m + 1) % 3]);
+						LHADecoder *d1, *d2;
+						static uint8_t o1[4400], o2[4400];
+						size_t l1 = 0, l2 = 0, g1, g2, h = (size_t) n / 2;
+						VIN.p = data; VIN.n = (size_t) n; VIN.pos = 0; VIN.chunk = 0; VIN.calls = 0;
+						VIN2.p = data + 7; VIN2.n = h; VIN2.pos = 0;
+						d1 = lha_decoder_new(t1, vin_cb, &VIN, (size_t) n);
+						d2 = lha_decoder_new(t2, vin2_cb, &VIN2, h);
+						do {
+							g1 = lha_decoder_read(d1, o1 + l1, 33 < sizeof o1 - l1 ? 33 : 0); l1 += g1;
+							g2 = lha_decoder_read(d2, o2 + l2, 17 < sizeof o2 - l2 ? 17 : 0); l2 += g2;
+						} while (g1 || g2);
+						if (l1 != (size_t) n || memcmp(o1, data, l1) || l2 != h || memcmp(o2, data + 7, l2))
+							vf_viol("decoder-instance-interference", "methods %s and %s: two live decoders disturb each other (%zu of %d and %zu of %zu bytes)", methods[m], methods[(m + 1) % 3], l1, n, l2, h);
+						lha_decoder_free(d1); lha_decoder_free(d2);
+					}
 					free(out);
 				}
 				if (want > 0) vf_nontrivial(vf_mix(m, ((uint64_t) n << 20) | decl[k]));
